@@ -873,6 +873,17 @@ func main() {
 			r := c.Rng.Fork()
 			plans = append(plans, randomPlan(r, steps, i%2 == 0))
 		}
+		if only := os.Getenv("VERIF_C11_ONLY"); only != "" {
+			// debugging aid: run only the histories whose kind contains this text (the verdict of such a run is partial)
+			kept := []plan{}
+			for _, p := range plans {
+				if strings.Contains(p.kind, only) {
+					kept = append(kept, p)
+				}
+			}
+			plans = kept
+			c.Note("VERIF_C11_ONLY=%s: %d histories kept", only, len(plans))
+		}
 		base := e2e.Scratch("c11")
 		defer os.RemoveAll(base)
 		if !e2e.C11XattrsWork(base) {
